@@ -1,5 +1,6 @@
 import GV.Model.NativeScript
 import GV.Gen.RuleLists
+import GV.Gen.NativeScriptIds
 /-!
 C29 — Native scripts evaluate as the ledger defines them.
 
@@ -257,6 +258,13 @@ theorem rules_listed :
     ∀ l ∈ [GV.Gen.RuleLists.allegra, GV.Gen.RuleLists.mary, GV.Gen.RuleLists.alonzo,
            GV.Gen.RuleLists.babbage, GV.Gen.RuleLists.conway, GV.Gen.RuleLists.dijkstra],
       "UtxoValidateNativeScripts" ∈ l := by
+  decide
+
+/-- Regenerated tie: the type-id switch of `NativeScript.UnmarshalCBOR` (re-extracted on every
+    run) maps exactly the ids the model's parser accepts to the structures it builds. -/
+theorem gen_type_ids :
+    (∀ e ∈ GV.Gen.NativeScriptIds.table, ctorName e.1 = some e.2) ∧
+    (∀ id, id < 32 → (ctorName id).isSome = (GV.Gen.NativeScriptIds.table.map (·.1)).contains id) := by
   decide
 
 /-- Non-vacuity of the partial theorem: a nested script with both kinds of time lock, evaluated
